@@ -250,12 +250,40 @@ Observations on the unchanged tree (not violations):
     in alternates[h] (drop handling cleans `announced` only; identical in go-ethereum v1.9.15). Seen in 679
     (quick) / 7 404 (thorough) sequences. Never scheduled, never dereferenced; can park a hash in `announced`.
     Suggested fix: in the drop case also `delete(f.alternates[hash], drop.peer)` for hash in announces[peer].
-  * a RACE outside the sequential model: Reactor.RemovePeer unregisters the peer BEFORE it tells the
+  * (superseded, see "F5" below) a RACE outside the sequential model: Reactor.RemovePeer unregisters the peer BEFORE it tells the
     fetcher (reactor.go RemovePeer); a request the loop schedules in between reaches Reactor.fetchTx
     (reactor.go:74-77, fetchTx) with peers.Peer(id) == nil and dereferences it in (*peer).RequestTxs (peer.go:379) on
     a goroutine without recover. Hit once by the harness's own teardown (two RemovePeer calls without
     settling in between), which is why teardown now settles each removal. Suggested fix: nil check in fetchTx
     (return an error: the fetcher then Drops the peer), or Drop before Unregister.
+
+F5 (open at HEAD 1a77bfd, GENUINE; fix suggested in checks/c18/suggested-fix-fetchtx-unknown-peer.patch)
+   a peer that disconnects while a request to it is being sent kills the process
+  C18|reactor=txpool|channel=0x30|msg=fetcher-sequence|field=-|mutation=annA1 park T1 rmA late|node-state=txpool-fetcher,peer=known|oracle=request-goroutine-panic
+  Minimal schedule (5 events; 12 failing sequences in quick, 167 in thorough): A announces h1; [the next
+    request goroutine is delayed]; 600 ms pass: the loop moves h1 to the fetch stage and spawns
+    `go func(){ f.fetchTxs(A,[h1]) }` (tx_fetcher.go:804-810, scheduleFetches); A is removed:
+    Reactor.RemovePeer (reactor.go:147) unregisters A, then tells the fetcher; the delayed goroutine runs
+    now: Reactor.fetchTx (reactor.go:74-77) gets peers.Peer(A) == nil and (*peer).RequestTxs (peer.go:379)
+    dereferences it: nil pointer panic on a goroutine without recover => the process exits. The peer chooses
+    when it disconnects; the window is between the loop's decision and the goroutine's call (and always open
+    inside RemovePeer between Unregister and Drop).
+  Scheduling dimension added to the fetcher search: events `park` (the next request call the loop spawns is
+    held at the checker's gate; at most one at a time) and `late` (it runs only now) - an arming event plus a
+    release event instead of a single retroactive `late`, so that the successors of a state depend on the
+    state alone (armed flag and parked call are part of the state key) and de-duplication stays sound.
+    The wrapper around f.fetchTxs (accessor VerifC18WrapFetch) recovers and records a panic of the real
+    callback (chosen over the worker-death path: it is the goroutine body's callee, the observation is the
+    same, and no worker process is lost per failing sequence); an error return makes the goroutine Drop the
+    peer (one more counted loop iteration). Units whose first event leaves the initial state unchanged are
+    not expanded (their continuations are the other units' sequences, one event shorter).
+  With the suggested fix applied in a scratch worktree: quick exits 0 twice; bookkeeping, delivery and
+    no-peer-stopped oracles hold on all sequences including the 383 that release a delayed call (the failed
+    call returns "unknown peer", the goroutine Drops the peer, the hash is rescheduled to an alternate).
+    The seeded C18d is still caught on HEAD and on the fixed tree (same two signatures; 330 / 3424-3436 sequences).
+  Counts with park/late: quick 59 332 sequences, 8 092 states expanded, 52 worker-seconds (before: 60 696 /
+    7 735 / 60 - not expanding no-op first events pays for the two new events), quick wall 17-19 s;
+    thorough 209 768 sequences, 28 241 states, 283 worker-seconds, 141 s wall.
 
 11 of 13 caught by the quick tier (exit 1, VIOLATION lines for new signatures); the two that are not
 caught do not break the property as stated (contained panic = "at most the sending peer is dropped").
